@@ -48,9 +48,10 @@ def _local_names(fn_node: ast.AST) -> Set[str]:
     if a.kwarg:
         names.add(a.kwarg.arg)
     declared_global: Set[str] = set()
-    body = fn_node.body if isinstance(fn_node.body, list) else [fn_node.body]
-    for st in body:
-        for n in walk_no_nested(st):
+    if True:
+        for n in walk_no_nested(fn_node):
+            if n is fn_node:
+                continue
             if isinstance(n, ast.Name) and isinstance(n.ctx, (ast.Store, ast.Del)):
                 names.add(n.id)
             elif isinstance(n, (ast.FunctionDef, ast.ClassDef)):
@@ -128,6 +129,9 @@ class Effects:
                 params = param_names(f.node)
                 if name in params:
                     if name in ("self",) and params and params[0] == name:
+                        shared = self._shared_class_object(f, expr)
+                        if shared:
+                            return shared, path
                         return "self", path
                     if name == "cls" and params and params[0] == "cls" and f.is_classmethod:
                         return f"classattr:{self._owner(f).qualname if self._owner(f) else '?'}", path
@@ -168,6 +172,39 @@ class Effects:
         if isinstance(r, External):
             return f"external:{r.dotted}", path
         return "unknown", path
+
+    def _shared_class_object(self, fi: FuncInfo, expr: ast.AST) -> Optional[str]:
+        """`self.a.b...` where `a` is bound once in the class body to a freshly built object and never on instances:
+        all instances (and all threads) share that object, so writing into it is a write to class-level state."""
+        chain = []
+        e = expr
+        while isinstance(e, (ast.Attribute, ast.Subscript)):
+            chain.append(e)
+            e = e.value
+        # callers pass the object that is written into; chain[-1] is `self.a`
+        if len(chain) < 1 or not isinstance(chain[-1], ast.Attribute):
+            return None
+        a = chain[-1].attr
+        owner = self._owner(fi)
+        if owner is None:
+            return None
+        for k in self.prog.mro(owner):
+            v = k.assigns.get(a)
+            if v is None:
+                continue
+            if not isinstance(v, (ast.Call, ast.Dict, ast.List, ast.Set)):
+                return None
+            # rebound per instance anywhere?
+            for kk in self.prog.subclasses(k):
+                for ms in kk.methods.values():
+                    for m in ms:
+                        for n in walk_no_nested(m.node):
+                            if isinstance(n, (ast.Assign, ast.AnnAssign, ast.AugAssign)):
+                                tg = n.targets if isinstance(n, ast.Assign) else [n.target]
+                                if any(norm(t) == f"self.{a}" for t in tg):
+                                    return None
+            return f"classattr:{k.qualname}.{a}"
+        return None
 
     @staticmethod
     def _owner(fi: FuncInfo) -> Optional[ClassInfo]:
